@@ -554,4 +554,92 @@ theorem icLookX_warnPin_iff (C : NNet) (tl : PinIdx) (c1 : String) (p1 : Option 
   rw [icLookX_eq_iff _ _ _ _ _ _ _ (by simp)]
   simp only [icPins_warnPin_iff]
 
+/-! ### the functions with their raises: `iopathsC`, `interconnectsC` (second audit, item C14)
+
+`Look.toOpt` sends `raise` and `skip` both to `none`: the tables `pinLineOf` / `icLineOf` exist where the real call raises.  The
+statements about the REAL result are about `iopathsC` / `interconnectsC` (`none` = the call raises, no array at all). -/
+theorem pinLook_raise_iff (C : NNet) (tl : PinIdx) (name pin : String) :
+    pinLook C tl name pin = .raise ↔
+      ∃ i, cellOf C name = some i ∧
+        (tl (C.net.node i).kind pin = none ∨ ∃ idx, tl (C.net.node i).kind pin = some idx ∧ (C.net.node i).ins.length ≤ idx) := by
+  unfold pinLook
+  cases hc : cellOf C name with
+  | none => simp
+  | some i =>
+    cases ht : tl (C.net.node i).kind pin with
+    | none => simp [ht]
+    | some idx =>
+      by_cases hlt : idx < (C.net.node i).ins.length
+      · have hle : ¬ (C.net.node i).ins.length ≤ idx := by omega
+        cases hp : (C.net.node i).inPin idx <;> simp [ht, hlt, hp, hle]
+      · have hle : (C.net.node i).ins.length ≤ idx := by omega
+        simp [ht, hlt, hle]
+
+theorem iopathsC_eq {C : NNet} {tl : PinIdx} {df : DelayFile} {A : Arr} (h : iopathsC C tl df = some A) :
+    A = iopaths (pinLineOf C tl) df := by
+  unfold iopathsC at h
+  split at h
+  · exact (Option.some.inj h).symm
+  · cases h
+
+theorem iopathsC_none_iff (C : NNet) (tl : PinIdx) (df : DelayFile) :
+    iopathsC C tl df = none ↔ ∃ p ∈ namedEntries df, ioLook C tl p.1 p.2 = .raise := by
+  unfold iopathsC
+  split
+  · rename_i h
+    simp only [List.all_eq_true, bne_iff_ne, ne_eq] at h
+    simp only [reduceCtorEq, false_iff, not_exists, not_and]
+    exact fun p hp => h p hp
+  · rename_i h
+    rw [Bool.not_eq_true, List.all_eq_false] at h
+    simp only [true_iff]
+    obtain ⟨p, hp, hr⟩ := h
+    exact ⟨p, hp, by simpa using hr⟩
+
+theorem interconnectsC_eq {C : NNet} {tl : PinIdx} {df : DelayFile} {A : Arr} (h : interconnectsC C tl df = some A) :
+    interconnects (icLineOf C tl) df = some A := by
+  unfold interconnectsC at h
+  split at h
+  · cases h
+  · simp only at h
+    split at h
+    · exact h
+    · cases h
+
+/-- `interconnects(circuit, tlib)` raises exactly when the file has no top-level block, or an entry that is not skipped has a
+name with two `/` or a look-up that raises -/
+theorem interconnectsC_none_iff (C : NNet) (tl : PinIdx) (df : DelayFile) :
+    interconnectsC C tl df = none ↔
+      icEntries df = none ∨ ∃ es, icEntries df = some es ∧ ∃ e ∈ es, icSkip (norm e.r) (norm e.f) = false ∧
+        (slashOK e.a = false ∨ slashOK e.b = false ∨ icLookE C tl e = .raise) := by
+  unfold interconnectsC
+  cases hes : icEntries df with
+  | none => simp
+  | some es =>
+    simp only [reduceCtorEq, false_or, Option.some.injEq, exists_eq_left']
+    split
+    · rename_i h
+      simp only [List.all_eq_true, List.mem_filter, Bool.not_eq_true', Bool.and_eq_true, bne_iff_ne, ne_eq, and_imp] at h
+      have : interconnects (icLineOf C tl) df ≠ none := by simp [interconnects, hes]
+      simp only [this, false_iff, not_exists, not_and, not_or]
+      intro e he hs
+      obtain ⟨⟨h1, h2⟩, h3⟩ := h e he hs
+      exact ⟨by simp [h1], by simp [h2], h3⟩
+    · rename_i h
+      rw [Bool.not_eq_true, List.all_eq_false] at h
+      simp only [true_iff]
+      obtain ⟨e, hmem, hbad⟩ := h
+      simp only [List.mem_filter, Bool.not_eq_true'] at hmem
+      obtain ⟨he, hs⟩ := hmem
+      simp only [Bool.and_eq_true, bne_iff_ne, ne_eq] at hbad
+      refine ⟨e, he, hs, ?_⟩
+      by_cases h1 : slashOK e.a = false
+      · exact Or.inl h1
+      by_cases h2 : slashOK e.b = false
+      · exact Or.inr (Or.inl h2)
+      right; right
+      apply Classical.byContradiction
+      intro h3
+      exact hbad ⟨⟨by simpa using h1, by simpa using h2⟩, h3⟩
+
 end KV.Sdf
